@@ -361,6 +361,85 @@ func (c *checker) checkTree(treeNo int, via string, keys []string, exhaustive bo
 			})
 		}
 
+		// forged membership: a proof built from this honest proof is presented
+		// for a key K' that is in no node of the tree. Whatever its structure,
+		// it must not be accepted under the trusted root.
+		//   relabel         node at pos gets key K', keeps its hash (the other proof nodes stay)
+		//   fabricate-leaf  node at pos (also an empty one) replaced by (K', H(K'))
+		// drop > 0: the first drop pairs are cut off, so the node sits in a
+		// pair position the honest extraction never puts the proven key in
+		// (first pair, or a lone root) and its children are not in the proof.
+		tryForge := func(kind string, pos, drop int) {
+			if pos < 2*drop {
+				return
+			}
+			src := pn[pos]
+			if kind == "relabel" && src.IsEmpty() {
+				return
+			}
+			var from string
+			if !src.IsEmpty() {
+				from = src.Key()
+			} else {
+				from = key
+			}
+			fake := mutateKey(rng, from, taken)
+			if taken[fake] {
+				return
+			}
+			m := append([]fixedtree.Node{}, pn...)
+			switch kind {
+			case "relabel":
+				m[pos] = fixedtree.NewBaseNode(fake).SetHash(src.Hash())
+			case "fabricate-leaf":
+				m[pos] = fixedtree.NewBaseNode(fake).SetHash(valuehash.NewSHA256([]byte(fake)))
+			}
+			m = m[2*drop:]
+			rl := role(pos, pn[pos], L, key, ancestors)
+			if drop > 0 {
+				rl += ":leading-pairs-dropped"
+			}
+			r.Case(fmt.Sprintf("fg/n=%d/k=%d/%s/%d/%d", n, ki, kind, pos, drop))
+			r.Count("forged_proofs_"+kind, 1)
+			ww := w
+			ww.Mutation, ww.Pos, ww.Pos2 = "forge-"+kind+" claimed key "+fake, pos, drop
+			ww.Mutated = nodeStrings(m)
+			sig := "Proof:forged-membership:" + kind + ":" + rl
+			r.Guard(sig, ww, func() {
+				if ok, _ := proofAccepted(fixedtree.NewProof(m), fake, root); ok {
+					r.Violation(sig,
+						fmt.Sprintf("size %d: key %q is in no node of the tree, but the proof of key index %d with position %d (%s) changed by %s and %d leading pairs dropped passes IsValid, Prove(%q) and carries the tree root", n, fake, ki, pos, rl, kind, drop, fake), ww)
+				} else {
+					r.Count("forged_proofs_rejected", 1)
+				}
+			})
+		}
+
+		if exhaustive {
+			for pos := 0; pos < L; pos++ {
+				for drop := 0; 2*drop <= pos; drop++ {
+					tryForge("relabel", pos, drop)
+					tryForge("fabricate-leaf", pos, drop)
+				}
+			}
+		} else {
+			for j := 0; j < perKeyMut+2; j++ {
+				pos := rng.Intn(L)
+				drop := 0
+				if rng.Intn(2) == 0 {
+					drop = rng.Intn(pos/2 + 1)
+				}
+				tryForge([]string{"relabel", "fabricate-leaf"}[rng.Intn(2)], pos, drop)
+			}
+			// always: the leaf-in-first-pair and lone-root shapes
+			tryForge("relabel", 0, 0)
+			tryForge("relabel", L-1, (L-1)/2)
+			if L >= 5 {
+				tryForge("relabel", 2, 1)
+				tryForge("relabel", 3, 1)
+			}
+		}
+
 		if exhaustive {
 			for pos := 0; pos < L; pos++ {
 				tryMut("key", pos, 0)
@@ -495,7 +574,7 @@ func genKeys(rng interface{ Intn(int) int }, n int) []string {
 func TestC12(t *testing.T) {
 	r := vlib.Start(t, "C12", vlib.LevelExploration)
 	defer r.Finish()
-	r.SetRule("case = one oracle evaluation on a tree built by the real fixedtree.Writer from PRNG keys: tree built+validated+compared node by node with an integer reference (children 2i+1, 2i+2); one key's extracted proof (IsValid, Prove(key), last node == Tree.Root); one single mutation of that proof (key/hash/emptiness of one proof node, swap of two non-equal proof nodes) judged by IsValid && Prove(key) && root==tree root; one tree-node key/hash mutation judged by Tree.IsValid; one rebuild with one key changed judged by the root. sizes 1..E exhaustive over every key, every proof position and every tree node; larger sizes sampled (all 2^k-1, 2^k, 2^k+1 included). distinct = (size, key index, mutation kind, positions)")
+	r.SetRule("case = one oracle evaluation on a tree built by the real fixedtree.Writer from PRNG keys: tree built+validated+compared node by node with an integer reference (children 2i+1, 2i+2); one key's extracted proof (IsValid, Prove(key), last node == Tree.Root); one single mutation of that proof (key/hash/emptiness of one proof node, swap of two non-equal proof nodes) judged by IsValid && Prove(key) && root==tree root; one forged membership proof (a proof node relabelled to, or replaced by a self-consistent leaf of, a key K' that is in no tree node, optionally with leading pairs dropped so K' sits in the first pair or is a lone root) judged by IsValid && Prove(K') && root==tree root; one tree-node key/hash mutation judged by Tree.IsValid; one rebuild with one key changed judged by the root. sizes 1..E exhaustive over every key, every proof position and every tree node; larger sizes sampled (all 2^k-1, 2^k, 2^k+1 included). distinct = (size, key index, mutation kind, positions)")
 	r.Assume("keys within one tree are distinct and non-empty (users key nodes by unique hashes)")
 	r.Assume("a mutated proof counts as rejected if Proof.IsValid fails, Prove(key) fails, or its last node's hash differs from the trusted tree root")
 	c := &checker{r: r}
@@ -564,7 +643,7 @@ func TestC12(t *testing.T) {
 			r.Sample(samples[i])
 		}
 	}
-	if r.Counter("proofs_verified") == 0 || r.Counter("proof_mutations_rejected") == 0 || r.Counter("tree_mutations_rejected") == 0 {
+	if r.Counter("proofs_verified") == 0 || r.Counter("proof_mutations_rejected") == 0 || r.Counter("tree_mutations_rejected") == 0 || r.Counter("forged_proofs_rejected") == 0 {
 		r.Inconclusive("no proof verified or no mutation judged")
 	}
 }
